@@ -2,7 +2,7 @@
 # runseeded.sh <seeded-dir> [check ids...]: applies seeded/<dir>/patch.diff to /repo, runs the repo baseline and
 # the given checks (default: the property named in meta.json), restores /repo. Prints one line per check.
 set -u
-D="$1"; shift
+D="$(realpath "$1")"; shift
 cd /verif
 IDS="$@"
 [ -z "$IDS" ] && IDS=$(python3 -c "import json;print(json.load(open('$D/meta.json'))['property'])")
